@@ -10,6 +10,7 @@ CONSTANTS
   Dims = 1
   Kinds = {}
   Alphabet2 = {}
+  HalfLimits = FALSE
   Uneven = "any"
 INVARIANTS PartitionT
 POSTCONDITION TraceAccepted
